@@ -45,7 +45,10 @@ def gen_base(seed, tier="quick"):
     if ro:
         key, v = memsim.READONLY_VALUES[(seed // 9) % len(memsim.READONLY_VALUES)]
     else:
-        key, v = memsim.WRITABLE_VALUES[seed % len(memsim.WRITABLE_VALUES)]
+        # (the non-read-only seeds are numbered consecutively: seed % 27 would never reach the values whose
+        # index is 4 mod 9, the residue reserved for the read-only plans)
+        k_ = seed // 9 * 8 + (seed % 9 if seed % 9 < 4 else seed % 9 - 1)
+        key, v = memsim.WRITABLE_VALUES[k_ % len(memsim.WRITABLE_VALUES)]
     n = len(v.locations)
     is_str = issubclass(v, location.StringValue)
     ln = n
